@@ -129,7 +129,7 @@ CLAIMS = [
                 "of these sections with the same final table and answer (uprase_is_schedule, fnOp_is_lookupSec, ...), so the sections are the pieces of the "
                 "K2-validated replica. Props/C01Lin.lean: the linearizability oracle used on recorded histories is a verified checker (check_sound, "
                 "check_complete, applySpec_is_specOf: its step function is specOf); the driver decides with it every history the harness rejects and a sample "
-                "of those it accepts. Props/C01Sync.lean: 29 decide-theorems on the synchronisation skeletons regenerated from the source text (T-E). "
+                "of those it accepts. Props/C01Sync.lean: 27 theorems (decide) that EXECUTE the synchronisation skeletons regenerated from the source text on all small inputs (T-E; robust against loop-form and naming changes). "
                 "K3(ii): every sampled execution of the real table is replayed hold by hold (commit order) as a schedule of Model/Conc sections with the parameters the "
                 "code used (guarded hooks report the run_cuckoo snapshot, the hop records, the fast_double request); every answer and the final FULL-STATE digest must "
                 "coincide (6,864 executions / 564,531 sections per quick run). NOT PROVED about the C++ text: that the code of one hold computes the section function and "
